@@ -50,6 +50,16 @@ Wave 5 — lifecycle and values.
   model on them and compares with the real bodies.  Under sharing (`instancesShareNothing = false`: the clones'
   points table is the base model's) points settings go to the cell `g` when they are given (in the code: when they
   are applied) — the one remaining simplification, on the defective branch only.
+
+Wave 6 — the process-level cell and the factory's output.  `Server.fac` is what `bptk_factory()` builds (the same on
+every call): the theorems quantify over it (`Server.initF fac k ad`).  State that survives ACROSS factory calls in the
+process is the cell `Proc`: `tbl`, the points table of a base model object a factory closes over, and `scn`, scenario
+dictionaries kept by a process-wide cache (module globals: a cache of parsed scenario files that returns the loaded
+dictionary itself).  `instancesShareNothing = false` means the products reach that cell; `sharedIsScenarioDicts` says
+through which of the two: with the cache every product READS its scenario-level settings from `Proc.scn`
+(`readScn`) and `configure_settings` / the `/run` settings WRITE into it (`writeScn`) — session-level settings of one
+instance become the scenario settings of every other product, the server-level object included; step-level settings
+(model-level writes) stay private.
 -/
 namespace Bptk.C16
 open Bptk.C06 (Store)
@@ -65,6 +75,12 @@ structure Cfg where
   written to (true: a new factory product each time), or (false) recycles the object of a stopped instance after
   `end_session()` only — scenario settings and model overrides written through the old instance survive. -/
   freshObjects : Bool
+  /-- WHAT the factory products share when `instancesShareNothing = false`: the points table of one base model that
+  the clones alias (false; a factory closing over one model object), or — true — the scenario dictionaries: state
+  that survives across factory calls in the process (a module-level cache of parsed scenario files) hands the SAME
+  mutable `constants` / `points` dictionaries to every product, and `configure_settings` writes into them in place.
+  Irrelevant when nothing is shared. -/
+  sharedIsScenarioDicts : Bool := false
 deriving DecidableEq, Repr
 
 inductive Req where
@@ -125,28 +141,46 @@ inductive Resp where
   | saveError                                -- run-step without session under an adapter: the state cannot be externalised
 deriving DecidableEq, Repr
 
-/-- what the factory builds: the scenario lists `constant = 1`, nothing else -/
+/-- the default factory output: the scenario lists `constant = 1`, nothing else -/
 def Obj.fresh : Obj := { scn := [(0, 1)], mod := [], sess := none }
-def Inst.fresh : Inst := { alive := true, obj := Obj.fresh, saved := none }
 
-/-- write settings into a store of the object; what all factory products share (the points table of one base
-model) is the cell `g`.  Returns (shared cell, own store). -/
-def writeMod (c : Cfg) (g m upd : Store) : Store × Store :=
+/-- The process-level cell: state that outlives a factory call and that every factory product can reach —
+`tbl`: the points table of a base model object the factory closes over; `scn`: scenario dictionaries kept by a
+process-wide cache (module globals). With `instancesShareNothing` it is neither read nor written. -/
+structure Proc where
+  tbl : Store
+  scn : Store
+deriving DecidableEq, Repr
+
+/-- write settings into the MODEL of an object (`change_equation` / `change_points`).  Returns (process cell, own store). -/
+def writeMod (c : Cfg) (g : Proc) (m upd : Store) : Proc × Store :=
   if c.instancesShareNothing then (g, Store.update m upd)
-  else (Store.update g (ptsOf upd), Store.update m (constsOf upd))
+  else if c.sharedIsScenarioDicts then (g, Store.update m upd)
+  else ({ g with tbl := Store.update g.tbl (ptsOf upd) }, Store.update m (constsOf upd))
 
 /-- the settings a simulation on the object reads -/
-def effOf (c : Cfg) (g m : Store) : Store := if c.instancesShareNothing then m else m ++ g
+def effOf (c : Cfg) (g : Proc) (m : Store) : Store :=
+  if c.instancesShareNothing then m else if c.sharedIsScenarioDicts then m else m ++ g.tbl
+
+/-- write settings into the SCENARIO dictionaries of an object (`configure_settings`, `/run` settings) -/
+def writeScn (c : Cfg) (g : Proc) (scn upd : Store) : Proc × Store :=
+  if c.instancesShareNothing then (g, Store.update scn upd)
+  else if c.sharedIsScenarioDicts then ({ g with scn := Store.update g.scn upd }, scn)
+  else ({ g with tbl := Store.update g.tbl (ptsOf upd) }, Store.update scn (constsOf upd))
+
+/-- the scenario-level settings an object reads: its own dictionaries, or the process-wide ones -/
+def readScn (c : Cfg) (g : Proc) (scn : Store) : Store :=
+  if c.instancesShareNothing then scn else if c.sharedIsScenarioDicts then g.scn else scn
 
 /-- `begin_session`: settings into the scenario, caches reset, new session -/
-def objBegin (c : Cfg) (g : Store) (o : Obj) (st : Store) : Store × Obj :=
-  let w := writeMod c g o.scn st
+def objBegin (c : Cfg) (g : Proc) (o : Obj) (st : Store) : Proc × Obj :=
+  let w := writeScn c g o.scn st
   (w.1, { o with scn := w.2, sess := some { clock := 0, live := false, memo := [], log := [], sset := st, slog := [] } })
 
 /-- one step of the live simulation: the first step of a session applies the scenario settings to the model,
 every step applies its own settings; the step is computed under the effective settings -/
-def objStep (c : Cfg) (g : Store) (o : Obj) (s : Sess) (st : Store) : Store × Obj × Sess :=
-  let m1 := if s.live then o.mod else Store.update o.mod o.scn
+def objStep (c : Cfg) (g : Proc) (o : Obj) (s : Sess) (st : Store) : Proc × Obj × Sess :=
+  let m1 := if s.live then o.mod else Store.update o.mod (readScn c g o.scn)
   let w := writeMod c g m1 st
   let e := effOf c w.1 w.2
   let s' : Sess := { clock := s.clock + 1, live := true, memo := s.memo ++ [e], log := s.log ++ [(s.clock, e)],
@@ -154,20 +188,20 @@ def objStep (c : Cfg) (g : Store) (o : Obj) (s : Sess) (st : Store) : Store × O
   (w.1, { o with mod := w.2, sess := some s' }, s')
 
 /-- `bptk._set_state` on the object `o`: session settings re-applied, logged steps replayed with their settings -/
-def replayStep (c : Cfg) (acc : Store × Store × List Store) (st : Store) : Store × Store × List Store :=
+def replayStep (c : Cfg) (acc : Proc × Store × List Store) (st : Store) : Proc × Store × List Store :=
   let w := writeMod c acc.1 acc.2.1 st
   (w.1, w.2, acc.2.2 ++ [effOf c w.1 w.2])
 
-def replay (c : Cfg) (g : Store) (o : Obj) (s : Sess) : Store × Obj :=
-  let w := writeMod c g o.scn s.sset
-  let m1 := if s.slog.isEmpty then o.mod else Store.update o.mod w.2
+def replay (c : Cfg) (g : Proc) (o : Obj) (s : Sess) : Proc × Obj :=
+  let w := writeScn c g o.scn s.sset
+  let m1 := if s.slog.isEmpty then o.mod else Store.update o.mod (readScn c w.1 w.2)
   let r := s.slog.foldl (replayStep c) (w.1, m1, [])
   (r.1, { scn := w.2, mod := r.2.1, sess := some { s with live := !s.slog.isEmpty, memo := r.2.2 } })
 
 /-- `_ensure_instance_exists`: an instance that is not in memory is restored from the adapter, if there is one
 and it holds a state for the id, onto the object `src` that `_make_bptk` supplies.  Returns (cell, instance,
 whether `src` was used). -/
-def revive (c : Cfg) (ad : Bool) (g : Store) (src : Obj) (x : Inst) : Store × Inst × Bool :=
+def revive (c : Cfg) (ad : Bool) (g : Proc) (src : Obj) (x : Inst) : Proc × Inst × Bool :=
   if x.alive then (g, x, false) else
   if ad then
     match x.saved with
@@ -177,7 +211,7 @@ def revive (c : Cfg) (ad : Bool) (g : Store) (src : Obj) (x : Inst) : Store × I
 
 /-- one request on one (existing) instance.  `g` is the process-wide cell, `ad`: an adapter is configured,
 `src`: the object a restoration would be built on.  Returns (cell, instance, response, `src` used). -/
-def stepInst (c : Cfg) (ad : Bool) (g : Store) (src : Obj) (x : Inst) : Req → Store × Inst × Resp × Bool
+def stepInst (c : Cfg) (ad : Bool) (g : Proc) (src : Obj) (x : Inst) : Req → Proc × Inst × Resp × Bool
   | .stop => (g, { x with alive := false, obj := { x.obj with sess := none }, saved := none }, .deleted, false)
   | .expire => (g, { x with alive := false, obj := { x.obj with sess := none } }, .swept, false)
   | .create => (g, x, .invalid, false)
@@ -214,10 +248,10 @@ def stepInst (c : Cfg) (ad : Bool) (g : Store) (src : Obj) (x : Inst) : Req → 
 
 /-- a request on the server-level bptk object: `/run` writes its settings into the scenario, resets the cache
 and runs (scenario settings applied to the model) -/
-def stepOwn (c : Cfg) (g : Store) (o : Obj) : Req → Store × Obj × Resp
+def stepOwn (c : Cfg) (g : Proc) (o : Obj) : Req → Proc × Obj × Resp
   | .run st =>
-      let w := writeMod c g o.scn st
-      let m := Store.update o.mod w.2
+      let w := writeScn c g o.scn st
+      let m := Store.update o.mod (readScn c w.1 w.2)
       (w.1, { o with scn := w.2, mod := m }, .ran (effOf c w.1 m))
   | .equations => (g, o, .names)
   | .agents => (g, o, .noAgents)
@@ -230,16 +264,22 @@ def Req.serverLevel : Req → Bool
   | _ => false
 
 structure Server where
-  g : Store
+  g : Proc
   ad : Bool
+  fac : Obj              -- the factory's output: what `bptk_factory()` builds (the same on every call)
   own : Obj
   insts : Nat → Option Inst
   spare : List Obj       -- objects of stopped instances kept for reuse (always empty with `freshObjects`)
   made : Nat             -- number of factory calls so far
 
-def Server.initAd (k : Nat) (ad : Bool) : Server :=
-  { g := [], ad := ad, own := Obj.fresh, insts := fun i => if i < k then some Inst.fresh else none,
+/-- a server whose factory builds `fac`: the server-level object and `k` instances are factory products; the
+process cell starts with an empty shared table and the scenario dictionaries the factory reads -/
+def Server.initF (fac : Obj) (k : Nat) (ad : Bool) : Server :=
+  { g := { tbl := [], scn := fac.scn }, ad := ad, fac := fac, own := fac,
+    insts := fun i => if i < k then some { alive := true, obj := fac, saved := none } else none,
     spare := [], made := k + 1 }
+
+def Server.initAd (k : Nat) (ad : Bool) : Server := Server.initF Obj.fresh k ad
 
 def Server.init (k : Nat) : Server := Server.initAd k false
 
@@ -247,10 +287,10 @@ def updFn {α : Type} (f : Nat → α) (k : Nat) (v : α) : Nat → α := fun x 
 
 /-- `_make_bptk`: the object the next started / restored instance gets -/
 def takeObj (c : Cfg) (s : Server) : Obj :=
-  if c.freshObjects then Obj.fresh else
+  if c.freshObjects then s.fac else
   match s.spare with
   | o :: _ => o
-  | [] => Obj.fresh
+  | [] => s.fac
 
 /-- the server after `_make_bptk` was called -/
 def tookObj (c : Cfg) (s : Server) : Server :=
@@ -284,12 +324,13 @@ def Req.ensures : Req → Bool
   | _ => false
 
 /-- `reconstruct_instance` from the externalised state, if the store holds one for the id -/
-def rebuild (c : Cfg) (g : Store) (x : Inst) : Inst :=
+def rebuild (c : Cfg) (g : Proc) (fac : Obj) (x : Inst) : Inst :=
   match x.saved with
-  | some s => { x with alive := true, obj := (replay c g Obj.fresh s).2 }
+  | some s => { x with alive := true, obj := (replay c g fac s).2 }
   | none => x
 
-def restoreAll (c : Cfg) (g : Store) (f : Nat → Option Inst) : Nat → Option Inst := fun j => (f j).map (rebuild c g)
+def restoreAll (c : Cfg) (g : Proc) (fac : Obj) (f : Nat → Option Inst) : Nat → Option Inst :=
+  fun j => (f j).map (rebuild c g fac)
 
 /-- the id is not in memory: never existed, stopped or timed out -/
 def absent (f : Nat → Option Inst) (i : Nat) : Bool :=
@@ -301,7 +342,7 @@ def absent (f : Nat → Option Inst) (i : Nat) : Bool :=
 (`restoreOnlyAddressed`), or — adapter configured, addressed id not in memory — every instance of the store is rebuilt. -/
 def preRestore (c : Cfg) (s : Server) (op : Nat × Req) : Server :=
   if !c.restoreOnlyAddressed && s.ad && op.2.ensures && absent s.insts op.1 then
-    { s with insts := restoreAll c s.g s.insts }
+    { s with insts := restoreAll c s.g s.fac s.insts }
   else s
 
 /-- a request; instance requests are addressed to instance `op.1`, server-level requests ignore it. -/
